@@ -70,6 +70,10 @@ func lockOrderCase(k *engine.Case) {
 	long := append([]int(nil), keys...)
 	sort.Ints(long)
 	heldKey := []int{a, b}[r.Intn(2)]
+	unrelated := []int{401 + r.Intn(200), 700 + r.Intn(200)}
+	if r.Intn(3) == 0 {
+		unrelated = append(unrelated, 1000+r.Intn(50))
+	}
 	longFirst := r.Intn(2) == 0
 	read := r.Intn(4) == 0
 	k.Logf("shards=%d xhash=%v: helper holds %d; %s; short list %v, long list %v (shards %v); reads=%v", p, xhash, heldKey,
@@ -110,6 +114,19 @@ func lockOrderCase(k *engine.Case) {
 		}
 		if o1.Done() || o2.Done() {
 			k.Fail("lock-state", "%s: key %d is write-held by a helper, yet a multi-key request containing it was granted (lists %v / %v)", tgt.name, heldKey, first, second)
+			l.Unlock(heldKey)
+			return
+		}
+		// a third request for keys nobody holds or waits for is granted at once by the unsharded
+		// locker, whatever else is waiting
+		o3 := d.Spawn(fmt.Sprintf("Locks(%v)", unrelated), take(unrelated))
+		if !d.Quiesce() {
+			l.Unlock(heldKey)
+			return
+		}
+		k.Evals(1)
+		if !o3.Done() {
+			k.Fail("lock-blocked-by-unrelated", "%s: key %d is held and two multi-key requests (%v, %v) wait for it; a multi-key request for %v - keys nobody holds or waits for - is not granted: %v", tgt.name, heldKey, first, second, unrelated, Q.Describe())
 			l.Unlock(heldKey)
 			return
 		}
